@@ -96,6 +96,7 @@ type Exec struct {
 	lastIn     ssa.Instruction
 	uf         map[string]BoolV
 	timerFired bool
+	loggers    map[string]*Cell
 	vipers     map[*Cell]*viper.Viper
 	hostDone   chan struct{}
 }
@@ -694,6 +695,10 @@ func (x *Exec) call(fv FuncV, args []Val, site string) Val {
 	fn := fv.Fn
 	if _, plain := x.w.plain.Load(fn); !plain {
 		name := x.w.name(fn)
+		if r, ok := x.nativeRegexp(fv.Fn, args); ok {
+			x.stubsUsed["regexp (the real package, natively, on concrete pattern and text)"] = true
+			return r
+		}
 		if r, ok := x.w.redirect[name]; ok {
 			if x.redirectApplies(fn, args) {
 				fn = r
